@@ -135,6 +135,11 @@ def retrieval_eval(prog):
                     inner = next((v for v in eo.attrs.values() if isinstance(v, (Obj, BaseException, PyRaise))), None)
                 wraps = isinstance(inner, (BaseException, PyRaise)) or (isinstance(inner, Obj) and "Error" in inner.cls.name)
                 msgs.append((how, "%s%s" % (pr.name, " [wrapping another %s]" % (inner.cls.name if isinstance(inner, Obj) else type(inner).__name__) if wraps else "")))
+            if how == "stored" and h8.calls:
+                out["store-first"] = out["store-first"] or ("a pointer that designates nothing in a *stored* document makes the resolver retrieve the document "
+                                                            "(handler asked for %r): the store is no longer what its URL designates" % (h8.calls,))
+            if how == "stored" and st8.attrs["store"].get("sch://host/doc") is not DOC:
+                out["store-first"] = out["store-first"] or "after a pointer that designates nothing the stored document has been replaced"
         if len({m for _h, m in msgs}) != 1 or not msgs[0][1].startswith("RefResolutionError") or "wrapping" in msgs[0][1]:
             out["wrapped"] = out["wrapped"] or "an unresolvable pointer is reported differently depending on where the document came from: %r" % (msgs,)
         # 6. resolve(): the reference is joined to the scope in force; the pair (full URL, what that URL designates) comes back
